@@ -185,6 +185,17 @@ def judge(lines, run: Run, forced=False):
                     probs.append((f"C03:threshold-early:reference-clock:{base}",
                                   f"{raw!r} started in tick {s}: since the run's scope clock started (tick {k0}) only {ref} s passed in "
                                   f"ticks that were Running, threshold {T} {base} (engine's Scope Time {clock})"))
+            if base in UNIT_SECONDS and li["parent"] is not None and info[li["parent"]]["name"] == "Block":
+                # independent lower bound for the block's time clock: since the block became the active one, only ticks that were
+                # Running at one end at least can have moved it (2 ticks of slack)
+                bname = info[li["parent"]]["arg"]
+                k_a = next((k for k in range(len(run.obs)) if run.obs[k]["pre_clocks"]["Block"] == bname), None)
+                if k_a is not None and k_a <= s:
+                    ref = Decimal(str(DT)) * sum(1 for k in range(max(k_a - 1, 0), s) if "Running" in (run.obs[k]["pre_state"], run.obs[k]["state"]))
+                    if ref + 2 * Decimal(str(DT)) < Tn:
+                        probs.append((f"C03:threshold-early:reference-clock:{base}:block",
+                                      f"{raw!r} started in tick {s}: block {bname} has been active since tick {k_a - 1} and only {ref} s "
+                                      f"passed in ticks that were Running, threshold {T} {base} (engine's Block Time {clock})"))
             if base == "L" and li["parent"] is not None and info[li["parent"]]["name"] == "Block":
                 # independent lower bound for the block's volume clock: the harness feeds 0.05 L per tick, so since the
                 # block became the active one at most 0.05 L x ticks can have accumulated (2 ticks of slack)
